@@ -352,6 +352,21 @@ for _nu, _tier, _to in ((3, "quick", 900),):
     bounds="0..%d candidates on record at arbitrary distinct bit positions of a 4-word input block, each finished or unfinished; the parser finds a block header ending at an arbitrary bit position" % _nu,
     assumptions=["codec entry points replaced by contract stubs (parse() stub: block header found at the chosen position)", "scheduler lock and I/O threads stubbed; REAL heap helpers of process.c (the confirmation logic depends on the queue order)"])
 
+# ------------------------------------------------------------------------------- expand.c scheduler: rely/guarantee steps (conservation)
+RGX_ASM = ["codec entry points replaced by stubs returning any result their interface allows; heap helpers replaced by a bag with correct head extraction (real helpers: heap_ops)",
+           "RG: at every lock acquisition counters, queue sizes and the parser token are arbitrary subject to INV of h_expand_rg.c (rely); C12 assumed",
+           "two input blocks of two words are queued; output-slot total symbolic 3..6 (the production factor 16*workers does not enter the invariant)"]
+RGXB = "worker count 1..2, output slots 3..6, counters / queue sizes / ghost in-flight counts arbitrary subject to INV; one task execution with re-havoc at every lock release"
+for _e, _w in (("emit", ["emit_enabled", "emit_needs_another_buffer"]), ("reorder", ["reorder_enabled", "block_written", "bogus_block_dropped"]),
+               ("parse", ["parse_enabled", "parser_finds_block", "parser_needs_input", "parser_finishes"]),
+               ("retrieve", ["retrieve_enabled", "retrieve_needs_input", "refuted_candidate_aborted"]), ("scan", ["scan_enabled", "candidate_reported"]),
+               ("write_complete", ["write_completes"]), ("terminate", ["terminates"])):
+    add("rgx_" + _e, "h_expand_rg.c", "h_rgx_" + _e, {"C11": "quick", "C13": "quick"}, cbmc=["--unwind", "10"], object_bits=10, backend="kissat", timeout=1500, mem_gb=6,
+        functions=["src/expand.c:do_%s / can_%s" % (_e, _e) if _e not in ("write_complete", "terminate") else "src/expand.c:on_write_complete" if _e == "write_complete" else "src/expand.c:can_terminate",
+                   "src/expand.c:attach", "src/expand.c:detach", "src/expand.c:advance", "src/expand.c:init", "src/process.h:queue macros"],
+        witnesses=_w, bounds=RGXB, assumptions=RGX_ASM,
+        outside=["capacity bounds of unord_q, order_q, scan_q and input_q (need a relational invariant over speculative jobs); liveness of the decompressor"])
+
 # ===== keep this section LAST: it derives obligations from everything registered above =====
 # ------------------------------------------------------------------------------- C08: the same harnesses with CBMC's UB checks on
 import copy as _copy
